@@ -2,6 +2,7 @@ package local
 
 import (
 	"bytes"
+	"io"
 
 	"github.com/buildbarn/bb-storage/pkg/blobstore/buffer"
 	"github.com/buildbarn/bb-storage/pkg/digest"
@@ -52,7 +53,11 @@ func (ib *inMemoryBlock) Put(sizeBytes int64) BlockPutWriter {
 	ib.writeOffsetBytes += int(sizeBytes)
 	return func(b buffer.Buffer) BlockPutFinalizer {
 		// Ingest data.
-		err := b.IntoWriter(bytes.NewBuffer(ib.data[offsetBytes:offsetBytes]))
+		// Hide bytes.Buffer's ReadFrom(). It reallocates the
+		// buffer when fewer than bytes.MinRead bytes of
+		// capacity remain, which would cause data near the end
+		// of the block to be written elsewhere.
+		err := b.IntoWriter(struct{ io.Writer }{bytes.NewBuffer(ib.data[offsetBytes:offsetBytes])})
 		return func() (int64, error) {
 			return int64(offsetBytes), err
 		}
